@@ -140,6 +140,8 @@ type Server struct {
 
 	// serviceSafePointLock is a lock for UpdateServiceGCSafePoint
 	serviceSafePointLock sync.Mutex
+	// gcSafePointLock serializes the read-compare-write of the cluster GC safe point in UpdateGCSafePoint
+	gcSafePointLock sync.Mutex
 
 	// Store as map[string]*grpc.ClientConn
 	clientConns sync.Map
